@@ -38,6 +38,11 @@ type newS struct {
 	names         []string
 	cfgs          []string
 	rhelCfgOK     bool
+	// twin: after New, a second Libvuln is made from the same Options value
+	// (same Matchers slice, which has spare capacity) with every factory enabled;
+	// the first one is then observed and scanned. Both are legal uses; the model
+	// does not know about the second instance.
+	twin bool
 }
 
 var scriptedNames = []string{"c05-f0", "c05-f1", "c05-f2", "c05-c0", "c05-c1", "c05-c2"}
@@ -183,7 +188,7 @@ func (s *scenario) setupLines() []string {
 	if !s.nw.namesNil {
 		names = strs(s.nw.names)
 	}
-	out = append(out, fmt.Sprintf("new store=%d client=%d ret=%d names=%s cfgs=%s", b2i(s.nw.store), b2i(s.nw.client), s.nw.ret, names, strs(s.nw.cfgs)))
+	out = append(out, fmt.Sprintf("new store=%d client=%d ret=%d names=%s cfgs=%s twin=%d", b2i(s.nw.store), b2i(s.nw.client), s.nw.ret, names, strs(s.nw.cfgs), b2i(s.nw.twin)))
 	return out
 }
 
@@ -319,6 +324,14 @@ func genSetup(r *hx.Rand, s *scenario, count func(string)) {
 		if r.Chance(1, 5) {
 			nw.names = append(nw.names, "c05-nope")
 		}
+		if r.Chance(1, 4) {
+			// a name that differs from a registered one only by case selects nothing
+			nw.names = append(nw.names, strings.ToUpper(scriptedNames[r.Intn(len(scriptedNames))]))
+			count("new:name-differs-by-case")
+		}
+		if r.Chance(1, 8) {
+			nw.names = append(nw.names, "RHEL")
+		}
 		if len(nw.names) > 0 && r.Chance(1, 4) {
 			nw.names = append(nw.names, nw.names[0])
 		}
@@ -335,5 +348,6 @@ func genSetup(r *hx.Rand, s *scenario, count func(string)) {
 	if r.Chance(1, 6) {
 		nw.cfgs = append(nw.cfgs, "c05-nope")
 	}
+	nw.twin = r.Chance(1, 3)
 	s.nw = nw
 }
